@@ -255,9 +255,13 @@ func (n *namer) genCmdBody(c *Cmd) {
 				// a sibling whose name differs from the previous one only in case, or by one trailing character
 				prev := c.Subs[len(c.Subs)-1].Name
 				cand := ""
-				switch r.Intn(3) {
+				switch r.Intn(4) {
 				case 0:
 					cand = flipCase(prev)
+				case 3:
+					// a dotted name that starts with the sibling's name: on the command line just another word, in an
+					// INI section path it must not be mistaken for a sub-command of the sibling
+					cand = prev + "." + r.Pick([]string{"add", "x", "migrate"})
 				case 1:
 					cand = prev + r.Pick([]string{"i", "x", "1"})
 				default:
